@@ -1,4 +1,4 @@
-use proc_macro2::TokenStream;
+use proc_macro2::{Ident, Span, TokenStream};
 use quote::quote;
 use syn::{parse_quote, Data, DeriveInput, Fields, Path};
 
@@ -17,6 +17,9 @@ pub fn from_string_inner(ast: &DeriveInput) -> syn::Result<TokenStream> {
 
     let type_properties = ast.get_type_properties()?;
     let strum_module_path = type_properties.crate_module_path();
+    // The input parameter of `from_str`. A plain `s` would shadow a user's `parse_err_fn` or
+    // `default_with` function of the same name.
+    let s = &Ident::new("s", Span::mixed_site());
     // The phf map is a `static`, which cannot mention the generic parameters of the enum.
     // `use_phf` is only an optimisation, so fall back to the plain `match` for generic enums.
     let use_phf = type_properties.use_phf && ast.generics.params.is_empty();
@@ -36,7 +39,7 @@ pub fn from_string_inner(ast: &DeriveInput) -> syn::Result<TokenStream> {
 
             (
                 quote! { #ty_path },
-                quote! { ::core::result::Result::Err(#fn_path(s)) },
+                quote! { ::core::result::Result::Err(#fn_path(#s)) },
             )
         }
         _ => return Err(missing_parse_err_attr_error()),
@@ -62,13 +65,13 @@ pub fn from_string_inner(ast: &DeriveInput) -> syn::Result<TokenStream> {
             match &variant.fields {
                 Fields::Unnamed(fields) if fields.unnamed.len() == 1 => {
                     default = quote! {
-                        ::core::result::Result::Ok(#name::#ident(s.into()))
+                        ::core::result::Result::Ok(#name::#ident(#s.into()))
                     };
                 }
                 Fields::Named(ref f) if f.named.len() == 1 => {
                     let field_name = f.named.last().unwrap().ident.as_ref().unwrap();
                     default = quote! {
-                        ::core::result::Result::Ok(#name::#ident { #field_name : s.into() } )
+                        ::core::result::Result::Ok(#name::#ident { #field_name : #s.into() } )
                     };
                 }
                 _ => {
@@ -141,13 +144,13 @@ pub fn from_string_inner(ast: &DeriveInput) -> syn::Result<TokenStream> {
                         let upper = syn::LitStr::new(&upper_string, serialization.span());
                         phf_exact_match_arms.push(quote! { #upper => #name::#ident #params, });
                     }
-                    standard_match_arms.push(quote! { s if s.eq_ignore_ascii_case(#serialization) => #name::#ident #params, });
+                    standard_match_arms.push(quote! { #s if #s.eq_ignore_ascii_case(#serialization) => #name::#ident #params, });
                 }
             } else {
                 standard_match_arms.push(if !is_ascii_case_insensitive {
                     quote! { #serialization => #name::#ident #params, }
                 } else {
-                    quote! { s if s.eq_ignore_ascii_case(#serialization) => #name::#ident #params, }
+                    quote! { #s if #s.eq_ignore_ascii_case(#serialization) => #name::#ident #params, }
                 });
             }
         }
@@ -161,7 +164,7 @@ pub fn from_string_inner(ast: &DeriveInput) -> syn::Result<TokenStream> {
             static PHF: phf::Map<&'static str, #name> = phf::phf_map! {
                 #(#phf_exact_match_arms)*
             };
-            if let Some(value) = PHF.get(s).cloned() {
+            if let Some(value) = PHF.get(#s).cloned() {
                 return ::core::result::Result::Ok(value);
             }
         }
@@ -171,7 +174,7 @@ pub fn from_string_inner(ast: &DeriveInput) -> syn::Result<TokenStream> {
         default
     } else {
         quote! {
-            ::core::result::Result::Ok(match s {
+            ::core::result::Result::Ok(match #s {
                 #(#standard_match_arms)*
                 _ => return #default,
             })
@@ -184,7 +187,7 @@ pub fn from_string_inner(ast: &DeriveInput) -> syn::Result<TokenStream> {
             type Err = #default_err_ty;
 
             #[inline]
-            fn from_str(s: &str) -> ::core::result::Result< #name #ty_generics , <Self as ::core::str::FromStr>::Err> {
+            fn from_str(#s: &str) -> ::core::result::Result< #name #ty_generics , <Self as ::core::str::FromStr>::Err> {
                 #phf_body
                 #standard_match_body
             }
